@@ -390,6 +390,17 @@ where
                             cx.ev.count("child_interval_miss_tainted_skipped");
                             continue;
                         }
+                        // the same root cause as F11 (a NaN born from an
+                        // infinite operand is invisible to interval arithmetic,
+                        // so a decided choice dropped the branch that the point
+                        // evaluation takes): the child then differs in value
+                        // (tolerated above) and its interval cannot enclose
+                        if nan_from_inf(env.b, env.roots[k], &vals)
+                            && cx.known("F11-interval-ignores-nan-from-infinity")
+                        {
+                            cx.ev.count("child_interval_miss_f11_skipped");
+                            continue;
+                        }
                         // also excused if the *parent's* interval evaluator
                         // does not enclose its own point value here (C03's
                         // business, e.g. rand of a zero)
